@@ -26,7 +26,7 @@ GETTERS = ['get_results', 'get_results_short', 'get_results_long', 'get_debug']
 
 def plan(tier):
     return {'cases_per_shard': 330 if tier == 'quick' else 6500,
-            'time_cap_s': 45 if tier == 'quick' else 560}
+            'time_cap_s': 90 if tier == 'quick' else 560}
 
 
 def run_case(cs, ctx):
